@@ -60,7 +60,7 @@ ASSUMPTIONS = [
     "attachment indices above 2^30 are logged as 2^30",
     "fonts shaped through morx (tables of at most eight states, texts of at most six glyphs) have a thread-CPU "
     "budget of 0.3 s per call sequence; after two timeouts or three process deaths on one font (one corruption of "
-    "a font) its remaining jobs are recorded as not executed, after 60 in one shard the rest of the shard",
+    "a font) its remaining jobs are recorded as not executed, after 20 timeouts / 1000 deaths in one shard (1/48 of the plan) the rest of the shard",
     "a lookup graph with a cycle and a morx table with a DONT_ADVANCE cycle are loadable fonts inside the "
     "quantifier (structurally valid tables); which of Ok / Err they get is not demanded, only a returned "
     "well-formed run; the deleted glyph 0xFFFF of AAT is a glyph id at or above the glyph count",
